@@ -52,6 +52,11 @@ func determine(r klog.Record, b txt.Block) *style {
 		})
 	}
 	for _, l := range b.Lines() {
+		if l.IsBlank() {
+			// Blank lines before (or after) the record might consist of spaces or
+			// tabs; these don’t tell anything about the record’s indentation style.
+			continue
+		}
 		if l.Indentation() != "" {
 			s.indentation.Set(l.Indentation())
 			break
